@@ -58,6 +58,8 @@ def validate_contract_dict(  # noqa: WPS231 too much cognitive complexity
 
 
 def _check_clause(clause: dict, clause_id: str) -> None:
+    if not isinstance(clause, dict):
+        raise ContractFormatError(f"{clause_id} should be a dictionary")
     keywords = ["constant", "coefficients"]
     for kw in keywords:
         if kw not in clause:
@@ -66,6 +68,11 @@ def _check_clause(clause: dict, clause_id: str) -> None:
         if kw == "coefficients":
             if not isinstance(value, dict):
                 raise ContractFormatError(f'The "{kw}" in {clause_id} should be a dictionary')
+            for coefficient in value.values():
+                if not isinstance(coefficient, (int, float)):
+                    raise ContractFormatError(f'The "{kw}" in {clause_id} should map variables to numbers')
+        elif not isinstance(value, (int, float)):
+            raise ContractFormatError(f'The "{kw}" in {clause_id} should be a number')
 
 
 float_closeness_relative_tolerance: float = 1e-5
